@@ -293,6 +293,24 @@ def check_c09(exe, tier, seed, verdict):
     btexts = ["", "1", "0", "yes", "Yes", "NO", "true", "FALSE", "tRuE", "on", "off", "2", "yess", " yes", "yes ", "p-", "g@lse", "no!", "01", "truefalse", "y", "n", "t", "f", "nope", "_none_"]
     for _ in range(200 if tier == "quick" else 5000):
         btexts.append("".join(rnd.choice(ALPHA + "xyz01") for _ in range(rnd.randint(1, 9))))
+    # the neighbourhood of the legal spellings: every one-character extension (in front, behind), every single
+    # substitution and deletion, and concatenations, in three letter cases: "fails on every other text" beyond length 5
+    printable = [chr(c) for c in range(0x20, 0x7f)]
+    few = list("0 1_-;esEyYtTnN!")
+    for w in ("1", "0", "yes", "no", "true", "false"):
+        for cw in {w, w.upper(), w.capitalize(), w[:-1] + w[-1].upper()}:
+            ext = printable if (tier == "thorough" or cw == w) else few
+            for c in ext:
+                btexts += [cw + c, c + cw]
+            for c in few:
+                btexts += [cw + c + c, cw + c + "x" * 3]
+                for i in range(len(cw)):
+                    btexts.append(cw[:i] + c + cw[i + 1:])
+            for i in range(len(cw)):
+                btexts.append(cw[:i] + cw[i + 1:])
+            for w2 in ("1", "0", "yes", "no", "true", "false", "hood", "_positive", ";disabled"):
+                btexts.append(cw + w2)
+    btexts = [t for t in dict.fromkeys(btexts) if "\n" not in t]
     sc = ["newkf 1 x3d x23"]
     for t in btexts:
         sc += ["set String 1 - %s %s" % (hx("b"), hx(t)), "get Bool 1 - %s" % hx("b")]
@@ -323,7 +341,7 @@ def check_c09(exe, tier, seed, verdict):
     fok, fn = check_floats(exe, rnd, 1500 if tier == "quick" else 100000, verdict)
     cov = {"states": r.distinct, "transitions": r.generated, "traces_validated_against_impl": n_fwd + acc,
            "evaluations": len(recs) * 8 + len(events) + fn + nsweep, "distinct_nontrivial": nn + sum(1 for l in lits if len(l[2]) >= 9),
-           "rule": "MC_Typed: %d literals = sign {none,+,-} x base {8,10,16} x magnitudes {0, 1, 2^31+-3, 2^32+-3, 2^63+-3, 2^64+-3, 2^33..2^65}; each read by the 4 integer getters and their Def variants and compared with IntMeaning (digit-wise comparison with limits tied to the doubling relation). Trace_Typed: %d random literals of 1..25 digits x 8 getter calls, typed getters on keys without value (bare key, 'k=', in a section), %d boolean texts, and the exhaustive boolean sweep over all %d strings of length <= %d over the alphabet %r (every letter of the six words in both cases, the djb2 neighbours p - g @, blank). Floating getters: %d decimal literals (long fractions, exponents, float32 midpoints) against exact rational arithmetic (python Fraction; binary64 by CPython's correctly rounded float()). non-trivial = within 3 of a limit of the queried type or outside its range; random literal with >= 9 digits." % (
+           "rule": "MC_Typed: %d literals = sign {none,+,-} x base {8,10,16} x magnitudes {0, 1, 2^31+-3, 2^32+-3, 2^63+-3, 2^64+-3, 2^33..2^65}; each read by the 4 integer getters and their Def variants and compared with IntMeaning (digit-wise comparison with limits tied to the doubling relation). Trace_Typed: %d random literals of 1..25 digits x 8 getter calls, typed getters on keys without value (bare key, 'k=', in a section), %d boolean texts (random ones and the neighbourhood of the six words: every one-character extension in front and behind, substitutions, deletions, concatenations, in several letter cases), and the exhaustive boolean sweep over all %d strings of length <= %d over the alphabet %r (every letter of the six words in both cases, the djb2 neighbours p - g @, blank). Floating getters: %d decimal literals (long fractions, exponents, float32 midpoints) against exact rational arithmetic (python Fraction; binary64 by CPython's correctly rounded float()). non-trivial = within 3 of a limit of the queried type or outside its range; random literal with >= 9 digits." % (
                len(recs), len(lits), len(btexts), nsweep, maxlen, ALPHA, fn),
            "samples": [{"text": core.uncodes(recs[100]["text"]), "expect": recs[100]["exp"]}], "exhaustive": True,
            "float_literals_ok": fok, "trusted_base": ["TLC 1.8.0", "gcc ASan/UBSan", "drv.c", "CPython Fraction/float for the floating sub-claim"]}
